@@ -1289,6 +1289,39 @@ class Normalizer:
         self.inlined_names.add(target.qualname)
         return at(e, call)
 
+    def try_property_inline(self, a: ast.Attribute, fi: FuncInfo):
+        """`self.x` where x is a @property of the own class that is NOT an anchor and whose getter has expression form -> the
+        expression (a new read-only property is glue like a new helper: what it reads is read by its user)."""
+        if not (isinstance(a.ctx, ast.Load) and isinstance(a.value, ast.Name) and a.value.id == 'self' and fi.cls is not None
+                and fi.params[:1] == ['self']):
+            return None
+        target = None
+        for c in self.prog.mro(fi.cls):
+            if a.attr in c.methods:
+                target = c.methods[a.attr]
+                break
+            if a.attr in c.attrs:
+                return None
+        if target is None or target.kind != 'property' or self.is_anchor(target.qualname) or target.module.generated:
+            return None
+        if id(target.node) in self.active or len(target.params) != 1:
+            return None
+        for sub in self.prog.subclasses(fi.cls, strict=True):
+            if a.attr in sub.methods or a.attr in sub.attrs:
+                return None
+        self.normalize(target)
+        body = target.node.body
+        if body and isinstance(body[0], ast.Expr) and isinstance(body[0].value, ast.Constant) and isinstance(body[0].value.value, str):
+            body = body[1:]
+        if has_node(body, (ast.Yield, ast.YieldFrom, ast.Await, ast.Global, ast.Nonlocal, ast.FunctionDef, ast.AsyncFunctionDef, ast.ClassDef)):
+            return None
+        e = self.expr_form(clone(body), {target.params[0]: a.value})
+        if e is None:
+            return None
+        self.stats['inlined'] += 1
+        self.inlined_names.add(target.qualname)
+        return at(e, a)
+
     def inline_exprs(self, node, fi: FuncInfo, depth: int):
         """Replace calls of expression helpers anywhere inside an expression."""
         nz = self
@@ -1298,6 +1331,11 @@ class Normalizer:
                 self.generic_visit(c)
                 e = nz.try_expr_inline(c, fi, depth)
                 return e if e is not None else c
+
+            def visit_Attribute(self, a):
+                self.generic_visit(a)
+                e = nz.try_property_inline(a, fi)
+                return e if e is not None else a
         return T().visit(node)
 
     def try_stmt_inline(self, call: ast.Call, fi: FuncInfo):
